@@ -28,6 +28,7 @@ UNITS = {
     'V-ROW': dict(engine='verus', overlay='v_row.py'),
     'V-BLOOM': dict(engine='verus', overlay='v_bloom.py'),
     'V-TLFU': dict(engine='verus', overlay='v_tlfu.py', rlimit=60),
+    'V-POW': dict(engine='verus', overlay='v_pow.py'),
     'K-PR': dict(engine='kani', files=['harness_lib.rs'], module={'harness_lib.rs': 'verif_hooks::harness'},
                  n=dict(quick=2, thorough=3), bound='none (loop-free, payloads K=u8, V=u16 fully symbolic)',
                  functions=[dict(function='PutResult::{eq, clone, Copy}', file='src/lib.rs', line=0, props=['C12'])],
@@ -130,23 +131,49 @@ def all_units(P):
     u = P['units']
     return sorted(set(u['quick'] + u['thorough'])) if isinstance(u, dict) else u
 
-HOOK_COMMITS = []
+HOOK_COMMITS = ['28e1c53', '0e1cf41']
 HOOKS_ADD_ONLY = False
 NOTES = 'See DESIGN.md. Exit 2 from a check means undecided (lost anchor, tool error, timeout, vacuity guard), never an alarm.'
 
+KANI_LEVEL_TEXT = ('bounded contract checking of the real code (Kani/CBMC): every public operation is run from an ARBITRARY state satisfying the '
+                   'representation invariant (not from a scripted history), and the invariant plus the operation\'s postcondition are asserted; by induction over the '
+                   'history this covers histories of every length, but list lengths/capacities are bounded (see bounds in the evidence), so these obligations '
+                   'are labelled bounded and never counted as proved')
+KANI_NOTE = ('trusted: rustc, Kani 0.68/CBMC 6.11/minisat; the HashMap contract shim /verif/kani/vmap.rs (hasher never consulted: the quantifier over BuildHashers is '
+             'discharged by assumption on std/hashbrown); builders/views/audits/spec functions in /verif/kani (builder soundness is itself an obligation); keys/values u8; '
+             'no aliasing model; allocation never fails')
+T_KANI = 'contract harnesses (requires = invariant on an arbitrary symbolic state, call, ensures) checked by Kani/CBMC on the real crate'
+T_VERUS = 'contracts spliced onto functions extracted byte-for-byte from /repo and discharged by Verus/Z3'
+
+def _P(units, level, text, note, technique, quick=None, **kw):
+    d = dict(units=dict(quick=quick or units, thorough=units), level=level, level_text=text, level_note=note, technique=technique)
+    d.update(kw)
+    return d
+
+ALL_CACHES = ['K-RAW', 'K-SEG', 'K-2Q', 'K-ARC', 'K-WTLFU']
+
 PROPERTIES = {
-    'C12': dict(level='proof', units=['K-PR', 'K-RAW'], level_text='(under construction)', level_note='see evidence', technique='contract harnesses (Kani)'),
-    'C05': dict(level='proof', units=['V-ROW'],
-                level_text='(under construction) Verus overflow/index/shift obligations on the extracted LFU arithmetic',
-                level_note='see evidence trusted_base', technique='contract-based deductive verification (Verus on extracted real functions)'),
-    'C11': dict(level='proof', units=['V-ROW'],
-                level_text='(under construction) Verus contracts on the extracted sketch row',
-                level_note='see evidence trusted_base', technique='contract-based deductive verification (Verus on extracted real functions)'),
+    'C01': _P(ALL_CACHES + ['K-LIFE'], 'model_checking', KANI_LEVEL_TEXT + '. C01 is the conjunct "inv" of every operation contract of all five caches: resident count <= cap(), every partition within its bound, partitions pairwise key-disjoint, len()/is_empty() consistent with the view.', KANI_NOTE, T_KANI),
+    'C02': _P(ALL_CACHES + ['K-LIFE', 'K-ITER'], 'model_checking', KANI_LEVEL_TEXT + '. C02: lookups/put/remove postconditions over the whole key->value view, with symbolic values unrelated to keys; borrowed-key lookups with K=Box<u8>,Q=u8 and K=[u8;2],Q=[u8].', KANI_NOTE + '; String/&str keys not instantiated', T_KANI),
+    'C03': _P(ALL_CACHES + ['K-LIFE', 'K-ITER', 'K-CB'], 'model_checking', KANI_LEVEL_TEXT + '. C03: CBMC pointer-validity/bounds/double-free/dealloc checks on every path of every harness, plus the well-formedness audit (second sentence of C03, literally) after every operation, incl. clone, purge, resize, drop and node hand-over between lists.', KANI_NOTE + '; Stacked/Tree-Borrows aliasing rules and lifetimes of returned references are out of reach', T_KANI),
+    'C04': _P(['K-LIFE', 'K-2Q', 'K-ARC', 'K-SEG', 'K-WTLFU'], 'model_checking', KANI_LEVEL_TEXT + '. C04: drop-counting ghost state (every key/value object has an id and a drop counter): after each RawLRU operation and after dropping the cache every object was dropped exactly once or is retained/handed back; composite caches: node hand-over contracts plus CBMC dealloc checks on drop harnesses.', KANI_NOTE + '; heap-leak detection for composite caches relies on the RawLRU-level accounting plus view equations (no allocator counting)', T_KANI),
+    'C05': _P(ALL_CACHES + ['K-LIFE', 'K-SLFU', 'K-SKETCH', 'K-TLFU-CTOR', 'V-ROW', 'V-BLOOM', 'V-TLFU', 'V-POW'], 'model_checking', 'mixed: constructor/builder contracts over the FULL argument domain (all usize sizes, all f64 ratios incl. NaN) are complete Kani proofs; LFU arithmetic (overflow, shifts, indices) is proved unbounded by Verus on the extracted functions; panic-freedom of list operations is ' + KANI_LEVEL_TEXT, KANI_NOTE + '; CBMC float model for floor/mul; ln/ceil accuracy (Bloom sizing) unchecked; fewer than 2^64 doorkeeper insertions; sizes <= 2^32', T_KANI + ' + ' + T_VERUS),
+    'C06': _P(['K-RAW', 'K-LIFE'], 'model_checking', KANI_LEVEL_TEXT + '. C06: the view equations of every RawLRU method (exact order of the whole list after each call).', KANI_NOTE, T_KANI),
+    'C07': _P(['K-SEG'], 'model_checking', KANI_LEVEL_TEXT + '. C07: SLRU contract of put/get/get_mut/put_protected/remove_lru_from_*/peek_*_from_* by key location.', KANI_NOTE, T_KANI),
+    'C08': _P(['K-2Q'], 'model_checking', KANI_LEVEL_TEXT + '. C08: 2Q contract of put (frequent/recent/ghost/new), get, remove; victim rule transcribed from the statement; constructor contract over all sizes and f64 ratios is a complete proof.', KANI_NOTE + '; CBMC float model for floor/mul', T_KANI),
+    'C09': _P(['K-ARC'], 'model_checking', KANI_LEVEL_TEXT + '. C09: ARC contract of put (T1/T2/B1/B2/new) with the p update formula and victim rule transcribed from the statement; 0 <= p <= size in the invariant; ghost trimming only constrained relationally.', KANI_NOTE, T_KANI),
+    'C10': _P(['K-WTLFU'], 'model_checking', KANI_LEVEL_TEXT + '. C10: W-TinyLFU contract of put/get/get_mut/purge; the admission verdict is read from the real estimator in the pre-state (arbitrary sketch contents, seeds, doorkeeper).', KANI_NOTE + '; estimator instantiated small (rows <= 8 counters, one-word doorkeeper); its own contracts are C11', T_KANI),
+    'C11': _P(['V-ROW', 'V-BLOOM', 'V-TLFU', 'V-POW', 'K-SKETCH', 'K-TLFU-CTOR'], 'proof', 'deductive proof (Verus, unbounded in hashes, widths, sample sizes and history length): real TinyLFU/Bloom/CountMinRow bodies against step contracts, then an induction over arbitrary histories against the exact aged-count model (never under-counts, <= 16, exact for a single key, 0 after clear, reset schedule, no false negatives, comparisons). The four closure-using CountMinSketch functions are contracted (external_body) in Verus and discharged on the real bodies by Kani for row widths <= 8 counters: those leaf obligations are bounded.', 'trusted: Verus/Z3; vstd specs of Vec/slice; assume_specification for <[T]>::fill; KeyHasher is a function of its argument; Bloom::new yields 1 <= probes < 2048 for ratios in (0,1) (depends on ln/ceil accuracy, unchecked); < 2^64 doorkeeper insertions; sketch leaf functions bounded to width <= 8 (Kani); std sketch seeding not executed', T_VERUS + ' (leaf sketch functions: ' + T_KANI + ')'),
+    'C12': _P(ALL_CACHES + ['K-PR'], 'model_checking', KANI_LEVEL_TEXT + '. C12: relational postcondition of every put-like operation (result variant <-> change of the retained set); PutResult Eq/Clone/Copy structural for K=u8,V=u16 (loop-free, complete).', KANI_NOTE, T_KANI),
+    'C13': _P(ALL_CACHES + ['K-ITER'], 'model_checking', KANI_LEVEL_TEXT + '. C13: postcondition "view unchanged" (order, values, capacities, p, estimator state) for every read-only operation; equal views give equal futures because every other contract is a function of the view.', KANI_NOTE + '; Debug::fmt not covered', T_KANI),
+    'C14': _P(['K-ITER', 'K-2Q', 'K-ARC'], 'model_checking', KANI_LEVEL_TEXT + '. C14: iterator contracts with ghost cursors over the view under an arbitrary next/next_back schedule of len()+2 steps, for all ten iterator types; per-list accessor families of 2Q/ARC hand out the right list.', KANI_NOTE, T_KANI),
+    'C15': _P(['K-CB'], 'model_checking', KANI_LEVEL_TEXT + '. C15: ghost log of callback invocations; each operation contract states exactly how the log grows.', KANI_NOTE + '; with_on_evict_cb (RandomState) checked with RandomState::new stubbed', T_KANI),
+    'C16': _P(['K-LIFE', 'K-SEG', 'K-WTLFU', 'K-TLFU-CTOR'], 'model_checking', KANI_LEVEL_TEXT + '. C16: clone contract (equal view, disjoint nodes, independence under mutation and drop) for RawLRU, SegmentedCache, WTinyLFUCache, TinyLFU.', KANI_NOTE, T_KANI),
+    'C17': _P(['K-LIFE', 'K-RAW', 'K-SEG', 'K-2Q', 'K-ARC', 'K-WTLFU'], 'model_checking', KANI_LEVEL_TEXT + '. C17: (i) every harness runs with a hasher whose use is a failure (the crate never hashes outside its index) and an index whose iteration order is nondeterministic; (ii) contracts are functions of the abstract view; (iii) two-run relational contract: same view, different addresses and index slot order, same results.', KANI_NOTE + '; independence from the particular BuildHasher inside std/hashbrown HashMap is an assumption on the dependency', T_KANI),
+    'C20': _P(['K-SLFU'], 'model_checking', KANI_LEVEL_TEXT + '. C20: invariant used == sum of recorded costs over an arbitrary table; contracts of increment*/update*/remove*/clear/update_max_cost/room_left/fill_sample.', 'trusted: as above; table <= N keys; |cost| < 2^40 (i64 overflow excluded by precondition)', T_KANI),
 }
 
 NOT_APPLICABLE = {
     'C18': 'panic safety quantifies over unwinding out of user code; Kani gives panics abort semantics and Verus has no panics, so no contract either verifier can state speaks about the state after unwinding (DESIGN.md section 8)',
     'C19': 'a property of all safe client programs decided by rustc borrow/auto-trait checking of signatures; both verifiers run after borrow checking and erase lifetimes, pre/postconditions cannot express it (DESIGN.md section 8)',
 }
-for _p in ['C01','C02','C03','C04','C06','C07','C08','C09','C10','C12','C13','C14','C15','C16','C17','C20']:
-    NOT_APPLICABLE.setdefault(_p, 'check not built yet in this revision (planned: DESIGN.md section 5); not claimed until its obligations are discharged')
